@@ -12,6 +12,8 @@ dedicated ICT line.  One line fault; four variants that differ only in the ICT /
                  repaired before the power fault: the sensor is still cut off                      -> >= T
   sensor-cut-other-repair  as sensor-cut, and another line (other section), failed two increments earlier, is back in service
                  while the manual sectioning time of the main fault is running                      -> >= T
+  pair-cut       two lines of one section fail in the same increment; the sensor of the line listed first answers, the ICT line to
+                 the other one's sensor is out of service                                            -> >= T
   sensor-cut-swfail  as sensor-cut, and the main controller has a software failure (cured by a new signal within
                  seconds) one increment after the fault, while the section is being isolated by hand  -> >= T
 """
@@ -27,7 +29,15 @@ def build_case_spec(rng):
     nl = rng.randint(2, 5)
     parent = [-1] + [rng.randint(0, i - 1) for i in range(1, nl)]
     T = rng.choice([F(1), F(3, 2), F(2)])
-    spec = {"ctrl": {"type": "main", "T": str(T)}, "feeders": [{"parent": parent, "sw": [rng.choice([3, 3, 0, 1]) for _ in range(nl)], "cust": [1] * nl, "load": ["1/20"] * nl, "cost": [1] * nl}],
+    sw = [rng.choice([3, 3, 0, 1]) for _ in range(nl)]
+    if nl >= 3:
+        # a line with a disconnector at its upstream end followed by a line without switch: a two-line section away from the breaker
+        k = rng.randrange(1, nl - 1)
+        kids = [i for i in range(nl) if parent[i] == k]
+        if not kids:
+            parent[nl - 1] = k; kids = [nl - 1]
+        sw[k] = rng.choice([1, 3]); sw[kids[0]] = 0
+    spec = {"ctrl": {"type": "main", "T": str(T)}, "feeders": [{"parent": parent, "sw": sw, "cust": [1] * nl, "load": ["1/20"] * nl, "cost": [1] * nl}],
             "tie": None, "ties": [], "mg": None, "rep": "6", "exact": True}
     ps = net.build(spec)
     devices = [f"S{l.name}" for l in ps.lines] + [f"I{d.name}" for d in ps.disconnectors]
@@ -51,7 +61,7 @@ def gen(rng, n):
         dt = rng.choice([F(1, 2), F(1, 4)])
         cases.append({"kind": "timing", "spec": spec, "devices": devices, "fault": [rng.randint(2, 4), f"F0L{fl}", "5"], "dt": str(dt),
                       "other": rng.randrange(8),
-                      "variants": ["healthy", "ctrl-repair", "sensor-cut", "switch-cut", "overlap", "sensor-cut-swfail", "sensor-cut-other-repair"]})
+                      "variants": ["healthy", "ctrl-repair", "sensor-cut", "switch-cut", "overlap", "sensor-cut-swfail", "sensor-cut-other-repair", "pair-cut"]})
     return cases
 
 
@@ -93,6 +103,21 @@ def run_variant(case, variant):
     faulted = ps.get_comp(lname)
     devices = case["devices"]
     cut = None
+    twin = None
+    if variant == "pair-cut":
+        # two lines of one section (no switch between them) fail in the same increment; the sensor of the one listed first answers,
+        # the communication line to the sensor of the other one is out of service: the section needs the crew
+        secs = [sc for sc in {id(l.section): l.section for l in ps.lines if l.section is not None}.values() if len(sc.lines) >= 2]
+        if not secs:
+            return None
+        away = [sc for sc in secs if all(l.circuitbreaker is None for l in sc.lines)]       # prefer sections away from the breaker: something stays fed
+        secs = away or secs
+        sc = secs[case.get("other", 0) % len(secs)]
+        first, later = sc.lines[0], sc.lines[-1]
+        if f"S{later.name}" not in devices or f"S{first.name}" not in devices:
+            return None
+        faulted = later; lname = later.name; twin = first
+        cut = devices.index(f"S{later.name}")
     if variant in ("sensor-cut", "overlap", "sensor-cut-swfail", "sensor-cut-other-repair"):
         cut = devices.index(f"S{lname}")
 
@@ -130,6 +155,9 @@ def run_variant(case, variant):
             saved["energised"] = bool(faulted.connected)      # (a fault on a line that is already out of service trips nothing)
             faulted.repair_time_dist = net.FixedDist(F(rep))
             faulted.fail(curr_time - prev_time)
+        if variant == "pair-cut" and k == k0 and twin is not None:
+            twin.repair_time_dist = net.FixedDist(F(rep))
+            twin.fail(curr_time - prev_time)
         if variant == "sensor-cut-other-repair" and other is not None and k == k_other:
             # another line, failed earlier, whose repair is completed while the manual sectioning time of the main fault is running:
             # the poll its repair triggers must not shorten that time
